@@ -13,12 +13,12 @@ EXPLANATION = ('Symbolic execution of the real CLikeCompilerArgs: operation sequ
 ASSUMPTIONS = ['argument kinds: -I -L -D -U -isystem -l -Wl,-rpath, -f lib*.a lib*.so -D*.so -pthread and the bare prefixes -I / -D; tails one character over {a,b}',
                'the reference (eager) semantics is the trusted reading of the class docstring / property statement',
                'lazy states of the inductive step: pre holds prepend-kind arguments and post the others, needs_override_check as __iadd__ would have set it']
-OUT = 'D-language and linker subclasses beyond the cross-class obligation, to_native (realpath-based default-include stripping, --start-group insertion)'
+OUT = 'D-language and linker subclasses beyond the cross-class obligation; to_native for other linkers, symbolic links among the default include directories (realpath is a stub), unix_args_to_native of non-GNU compilers'
 MANIFEST = dict(
     text='Bounded model checking of the lazily flushed argument list as a state machine: every operation sequence up to the bound with symbolic argument identity, against '
          'the eager semantics, plus one inductive step (laziness is transparent from any lazy state), which lifts the bounded result to arbitrary interleavings of reads.',
     note='Trusted: symx engine, z3, the 30-line eager reference. Bounds: sequences of <=3 (quick) / <=4 (thorough) operations with batches of 1-2 arguments; lazy states with <=2 '
-         'elements per part. Also append_direct / extend_direct / extend_preserving_lflags with absolute paths. Outside: to_native.')
+         'elements per part. Also append_direct / extend_direct / extend_preserving_lflags with absolute paths. to_native with a GNU-like linker: 2-3 (4) arguments.')
 
 CA = Dedup = arglist = None
 ORIG = {}
@@ -66,8 +66,8 @@ def isin(a, xs): return any(decide(bt_any(a == x)) for x in xs)
 
 
 def is_libso(a):
-    """([/\\\\]|^)lib.*\\.so(\\.N){0,3}$ for our argument shapes (no version suffixes generated)"""
-    if not ew(a, ('.so',)): return False
+    """([/\\\\]|^)lib.*\\.so(\\.N){0,3}$ for our argument shapes (version suffix: none or .1)"""
+    if not ew(a, ('.so', '.so.1')): return False
     cs = chars_of(a)
     for i in range(len(cs) - 2):
         if (i == 0 or decide(c_in(cs[i - 1], '/\\'))) and decide(bt_any(mkstr(cs[i:i + 3]) == 'lib')): return True
@@ -271,6 +271,69 @@ def ob_cross_class():
     return h
 
 
+DEFAULT_DIRS = ['/usr/include', '/usr/local/include']
+
+
+def r_is_lib(a):
+    """library-like for the linker group (clike.GROUP_FLAGS): -lX / -Wl,-lX, *.a, *.so[.N[.N[.N]]] not passed through -Wl,"""
+    if sw(a, ('-l', '-Wl,-l')) or ew(a, ('.a',)): return True
+    if sw(a, ('-Wl,',)): return False
+    return ew(a, ('.so', '.so.1', '.so.1.2'))
+
+
+def ob_to_native(n):
+    """CLikeCompilerArgs.to_native with a GNU-like linker: what the compiler receives is the eager list with (1) -isystem arguments naming a DEFAULT include
+    directory removed - in the joined, the two-argument and the `=` spelling - and nothing else removed, and (2) when there are at least two library-like
+    arguments, -Wl,--start-group right before the first and -Wl,--end-group right after the last of them: every library inside, nothing else moved"""
+    def h():
+        from mesonbuild.compilers.c import GnuCCompiler
+        from mesonbuild.linkers.linkers import GnuBFDDynamicLinker
+        comp = object.__new__(GnuCCompiler)
+        comp.linker = object.__new__(GnuBFDDynamicLinker)
+        comp.get_default_include_dirs = lambda: list(DEFAULT_DIRS)
+        comp.unix_args_to_native = lambda args: list(args)
+        saved = CA.__dict__['_cached_realpath']
+        CA._cached_realpath = staticmethod(lambda a: a)        # stub: no symbolic links on the include path
+        try:
+            batches = []; one_batch = choose(2, 'one batch') == 1
+            cur = []
+            for i in range(n):
+                k = choose(11, 'kind%d' % i)
+                s_ = sym_str(1, 't%d' % i, alphabet='ab')
+                new = [['-l' + s_], ['lib' + s_ + '.a'], ['/x/lib' + s_ + '.so'], ['/x/lib' + s_ + '.so.1'], ['-isystem/usr/include'], ['-isystem', '/usr/local/include'],
+                       ['-isystem=/usr/include'], ['-isystem/opt/' + s_], ['-D' + s_], ['-Wl,--export-dynamic'], ['-Wl,-l' + s_]][k]
+                if one_batch: cur += new
+                else: batches.append(new)
+            if one_batch: batches = [cur]
+            a = CA(comp); L = []
+            for b in batches:
+                a += list(b); L = r_iadd(L, list(b))
+            copy_ = choose(2, 'copy') == 1
+            got = a.to_native(copy=copy_)
+            # reference
+            kept = []; i = 0
+            while i < len(L):
+                x = L[i]
+                if isin(x, ('-isystem',)):
+                    if i + 1 < len(L) and isin(L[i + 1], DEFAULT_DIRS): i += 2; continue
+                elif sw(x, ('-isystem=',)):
+                    if isin(x[9:], DEFAULT_DIRS): i += 1; continue
+                elif sw(x, ('-isystem',)):
+                    if isin(x[8:], DEFAULT_DIRS): i += 1; continue
+                kept.append(x); i += 1
+            libs = [j for j, x in enumerate(kept) if r_is_lib(x)]
+            exp = list(kept)
+            if len(libs) >= 2:
+                exp.insert(libs[-1] + 1, '-Wl,--end-group'); exp.insert(libs[0], '-Wl,--start-group'); cover('group')
+            if len(kept) != len(L): cover('stripped')
+            same_list(got, exp, 'to_native')
+            if copy_: same_list(list(a), L, 'to_native(copy=True) leaves the list itself alone')
+            cover('done')
+        finally:
+            CA._cached_realpath = saved
+    return h
+
+
 def obligations(tier):
     q = tier == 'quick'
     out = [Obligation('classify', ob_classify(), dict(kinds=len(KINDS) + len(EXACT)), labels=('plain', 'ovr', 'unq'))]
@@ -286,6 +349,9 @@ def obligations(tier):
     shapes = [(1, 1, 1, 1), (1, 2, 1, 1), (1, 1, 2, 1), (0, 1, 1, 2)] if q else [(1, 1, 1, 1), (1, 2, 1, 1), (1, 1, 2, 1), (0, 1, 1, 2), (2, 1, 1, 1), (1, 2, 2, 1), (1, 1, 1, 2), (2, 2, 2, 1)]
     for s in shapes:
         out.append(Obligation('lazy-step%s' % (s,), ob_lazy(*s), dict(container=s[0], pre=s[1], post=s[2], batch=s[3]), labels=('done',), max_paths=3000000))
+    for n in ((2, 3) if tier == 'quick' else (2, 3, 4)):
+        out.append(Obligation('to-native[%d]' % n, ob_to_native(n), dict(arguments=n, kinds='-lX libX.a /x/libX.so /x/libX.so.1 -isystem<default> (3 spellings) -isystem<other> -DX -Wl,--export-dynamic -Wl,-lX; X symbolic', linker='GNU-like', batches='one | one per argument', copy='both'),
+                              labels=('done', 'group', 'stripped'), max_paths=3000000))
     out.append(Obligation('cross-class', ob_cross_class(), dict(classes='two of CompilerArgs / CLikeCompilerArgs / DCompilerArgs, either order', arguments='3 choices out of %d concrete strings' % len(CONCRETE),
                                                                  increments=2, memo='the original lru_cache wrappers are in place'), labels=('done',)))
     return out
